@@ -578,6 +578,8 @@ class Interp:
 
     def setattr(self, obj, name, value):
         if isinstance(obj, Rec):
+            if obj.__dict__.get('list_element'):
+                raise Unsupported('assignment to field %s of an element of a symbolic-length list (the element is a view; the write would be lost)' % name)
             raw = None
             for k in obj.cls.__mro__:
                 if name in k.__dict__:
